@@ -72,6 +72,8 @@ def rand_str(rng, maxlen=12, allow_surrogate=True):
         else:
             c = rng.randint(0x10000, 0x10FFFF)
         out.append(chr(c))
+    if rng.random() < 0.05:
+        out.insert(0, "\ufeff")  # a leading byte-order mark is an ordinary character
     if allow_surrogate and rng.random() < 0.06:  # a lone surrogate somewhere: not UTF-8 encodable
         out.insert(rng.randint(0, len(out)), chr(rng.choice([0xD800, 0xDBFF, 0xDC00, 0xDC80, 0xDCFF, 0xDFFF, rng.randint(0xD800, 0xDFFF)])))
     return "".join(out)
@@ -144,6 +146,7 @@ def special_values():
                   {True: 1}, {1: True}, [True, 1, 1.0, False, 0, 0.0, -0.0], "", b"", "\U0010ffff", "\x00",
                   list(range(40)), {str(i): i for i in range(30)}, b"\x00" * 300, "é" * 200,
                   "\ud800", "\udbff", "\udc00", "\udc80", "a\udcffb", "\udfff", ["\udc80"], {"\udcfe": 1}, ("x", "\udc81"),
+                  "\ufeff", "\ufeffabc", {"\ufeffk": 1, "k": 2}, ["\ufeff\ufeff"], "\ufffe", "\x00\ufeff",
                   float("nan"), [float("nan")], (float("inf"), -0.0), complex(float("nan"), -0.0)]
 
 
